@@ -490,7 +490,9 @@ pub fn parse_line(line: &str) -> LineInfo {
         }
     }
 
-    if !sep.is_empty() {
+    // (a word tagged `\\` started with an escaped `$` or `|`: it is not an
+    // open quote)
+    if !sep.is_empty() && sep != "\\" {
         is_line_complete = semi_ok;
     }
     if has_backslash {
